@@ -123,7 +123,7 @@ func setup(key, salt []byte, cost uint8, prefix string) (*blowfish.Cipher, error
 	if prefix != Prefix2 {
 		// BUG: if the version is 2, no zero byte is appended to the key.
 		// It's intentional to emulate the old behavior.
-		key = append(key, 0)
+		key = append(key[:len(key):len(key)], 0)
 	}
 	c, err := blowfish.NewSaltedCipher(key, salt)
 	if err != nil {
